@@ -306,31 +306,67 @@ def same_bits(a, snap):
         np.array(a, dtype=np.float64).tobytes() == np.array(snap, dtype=np.float64).tobytes()
 
 
-def run_history(h):
+def apply_update(state, u):
+    """One in-place change the caller makes between two calls.  state: dict(box, ibox, point) of the caller's objects;
+    the arrays keep their identity (that is the point).  The caller keeps the inverse-box buffer in step with the box."""
+    box, ibox = state["box"], state["ibox"]
+    if u["what"] == "box":
+        if u["op"] == "scale":
+            box *= u["factor"]                              # pressure coupling
+        elif u["op"] == "set":
+            box[:] = np.array(u["values"], dtype=float)     # next frame written into the same buffer
+        else:
+            box[u["i"], u["j"]] += u["delta"]               # shear
+        ibox[:] = np.linalg.inv(box)
+    else:
+        p = state["point"]
+        vals = u["values"]
+        if isinstance(p, np.ndarray):
+            p[:] = np.array(vals).astype(p.dtype)
+        elif isinstance(p, list):
+            for i in range(3):
+                p[i] = float(vals[i])
+        # a tuple cannot be changed in place
+
+
+def snapshot(x):
+    return x.copy() if isinstance(x, np.ndarray) else type(x)(x)
+
+
+def run_history(h, impl=True):
     """Runs the call sequence of h on the implementation with ONE point object, ONE box array, ONE inverse-box array and
-    ONE Residue object per residue, all reused between the calls.  Returns (records, bad):
+    ONE Residue object per residue, all reused between the calls and - `pre` of a call - CHANGED IN PLACE by the caller
+    between calls (rescaled / overwritten / sheared box with its inverse buffer, overwritten point).
+    Returns (records, bad):
       records[k] = the values the caller's arrays hold when call k starts (what the pure model is fed) and the observation;
       bad        = failed clauses: a caller's array changed by a call, or a call's value differs from the oracle's value for
-                   the inputs the caller handed over (the snapshots)."""
+                   the values the caller's arrays held when the call started.
+    impl=False only simulates the caller (no implementation call): used by the generator for the quantifier's margins."""
     B0 = np.array(h["box"], dtype=float)
-    box = B0.copy()
-    ibox = np.linalg.inv(B0)
-    residues = [make_residue(pts, resid=k + 1, resname="R%d" % k) for k, pts in enumerate(h["residues"])]
-    point = make_point(h["point"], h["point_form"])
-    snap_point = point.copy() if isinstance(point, np.ndarray) else type(point)(point)
-    snap_box, snap_ibox = box.copy(), ibox.copy()
-    snap_res = [r.atoms_positions.copy() for r in residues]
-    ortho = is_ortho(B0)
-    records, bad = [], []
+    state = {"box": B0.copy(), "ibox": np.linalg.inv(B0), "point": make_point(h["point"], h["point_form"])}
+    box, ibox, point = state["box"], state["ibox"], state["point"]
+    residues = [make_residue(pts, resid=k + 1, resname="R%d" % k) for k, pts in enumerate(h["residues"])] if impl else None
+    snap_res = [np.array(pts, dtype=float) for pts in h["residues"]]
+    records, bad, pending = [], [], []
     for k, c in enumerate(h["calls"]):
-        a = residues[c["self"]]
-        if c["other"] == "point":
-            okind, b, cur_other, want_other = "point", point, point_values(point), np.array(point_values(snap_point))
-        else:
-            okind, b = "residue", residues[c["other"]]
-            cur_other, want_other = b.atoms_positions.tolist(), snap_res[c["other"]].mean(axis=0)
-        cur_self = a.atoms_positions.tolist()
+        for u in c.get("pre", ()):
+            apply_update(state, u)
+        snap_point, snap_box, snap_ibox = snapshot(point), box.copy(), ibox.copy()
         mode = c["box"]
+        Bcur = None if mode == "none" else (np.linalg.inv(snap_ibox) if mode == "inv" else snap_box)
+        if c["other"] == "point":
+            okind, want_other, want_pts = "point", np.array(point_values(snap_point)), point_values(snap_point)
+        else:
+            okind, want_other, want_pts = "residue", snap_res[c["other"]].mean(axis=0), snap_res[c["other"]].tolist()
+        v = want_other - snap_res[c["self"]].mean(axis=0)
+        margin = None if Bcur is None else frac_margin_nm(np.linalg.solve(Bcur.T, v), Bcur)
+        if not impl:
+            records.append({"margin": margin})
+            continue
+        a = residues[c["self"]]
+        b = point if okind == "point" else residues[c["other"]]
+        cur_other = point_values(point) if okind == "point" else b.atoms_positions.tolist()
+        cur_self = a.atoms_positions.tolist()
         try:
             with np.errstate(all="ignore"):
                 if mode == "none":
@@ -347,9 +383,9 @@ def run_history(h):
         except TypeError:
             obs = ("err", "EType")
         records.append({"self": cur_self, "other_kind": okind, "other": cur_other,
-                        "box": None if mode == "none" else (ibox if mode == "inv" else box).tolist(),
+                        "box": None if mode == "none" else (snap_ibox if mode == "inv" else snap_box).tolist(),
                         "inv": mode == "inv", "obs": obs})
-        # (1) the caller's arrays are untouched
+        # (1) the caller's arrays are untouched by the call
         if not same_bits(point, snap_point):
             bad.append("call %d (%s) changed the point given by the caller (%s): %s -> %s" %
                        (k, mode, h["point_form"], point_values(snap_point), point_values(point)))
@@ -358,47 +394,69 @@ def run_history(h):
         for j, r in enumerate(residues):
             if not same_bits(r.atoms_positions, snap_res[j]):
                 bad.append("call %d (%s) changed the atom positions of residue %d" % (k, mode, j))
-        # (2) the value is the one the property fixes for the inputs handed over
-        v = want_other - snap_res[c["self"]].mean(axis=0)
+        # (2) the value is the one the property fixes for the values the arrays held when the call started
+        upd = " after the caller's in-place update of %s" % "+".join(sorted(set(u["what"] for u in c["pre"]))) \
+            if c.get("pre") else ""
         if obs[0] != "ok" or not np.isfinite(obs[1]):
-            bad.append("call %d (%s) failed or is not finite: %r" % (k, mode, obs))
+            bad.append("call %d (%s)%s failed or is not finite: %r" % (k, mode, upd, obs))
         elif mode == "none":
             free = float(np.linalg.norm(v))
             if abs(obs[1] - free) > TOL * (1 + free):
-                bad.append("call %d without box returned %.12g, the non-periodic distance is %.12g" % (k, obs[1], free))
-        elif frac_margin_nm(np.linalg.solve(B0.T, v), B0) >= HALF_MARGIN:
-            if ortho:
-                want = brute_min_image(v, np.diag(B0))
-                what = "the minimum over the periodic images"
+                bad.append("call %d without box%s returned %.12g, the non-periodic distance is %.12g" % (k, upd, obs[1], free))
+        elif margin >= HALF_MARGIN:
+            if is_ortho(Bcur):
+                want = brute_min_image(v, np.diag(Bcur))
+                if not abs(obs[1] - want) <= TOL * (1 + want):
+                    bad.append("call %d (%s, %s argument)%s returned %.12g, the minimum over the periodic images of the current "
+                               "box is %.12g" % (k, mode, okind, upd, obs[1], want))
             else:
-                sp = snap_res[c["self"]].tolist()
-                st, want = impl_distance(sp, okind, want_other.tolist() if okind == "point" else snap_res[c["other"]].tolist(),
-                                         B0, False)
-                what = "the value of the same query on fresh arrays"
-                if st != "ok":
-                    want = float("nan")
-            if not abs(obs[1] - want) <= TOL * (1 + want):
-                bad.append("call %d (%s, %s argument) returned %.12g, %s is %.12g" % (k, mode, okind, obs[1], what, want))
+                pending.append((k, mode, okind, upd, obs[1], snap_res[c["self"]].tolist(), want_pts, Bcur))
         if len(bad) >= 6:
             break
+    # triclinic boxes: the value must be the one of the same query on fresh arrays (asked only after the whole sequence,
+    # so that these extra calls cannot influence the sequence under test)
+    for k, mode, okind, upd, got, sp, other, Bcur in pending:
+        st, want = impl_distance(sp, okind, other, Bcur, False)
+        if st != "ok" or not abs(got - want) <= TOL * (1 + want):
+            bad.append("call %d (%s, %s argument)%s returned %.12g, the same query on fresh arrays gives %r" %
+                       (k, mode, okind, upd, got, want))
     return records, bad
 
 
 def history_in_domain(h):
-    B = np.array(h["box"], dtype=float)
-    pt = np.array(point_values(make_point(h["point"], h["point_form"])))
-    for c in h["calls"]:
-        if c["box"] == "none":
-            continue
-        o = pt if c["other"] == "point" else centre(h["residues"][c["other"]])
-        f = np.linalg.solve(B.T, o - centre(h["residues"][c["self"]]))
-        if frac_margin_nm(f, B) < 2 * HALF_MARGIN:
-            return False
-    return True
+    try:
+        records, _ = run_history(h, impl=False)
+    except np.linalg.LinAlgError:
+        return False
+    return all(r["margin"] is None or r["margin"] >= 2 * HALF_MARGIN for r in records)
+
+
+def gen_update(rs, B, form, anchor):
+    """an in-place change between two calls; B = the box the caller currently holds"""
+    r = rs.randint(0, 10)
+    if r < 3:
+        f = float(rs.choice([rs.uniform(0.7, 1.4), 1.0 + rs.uniform(-2e-3, 2e-3), 2.0, 0.5]))
+        return {"what": "box", "op": "scale", "factor": f}, B * f
+    if r < 6:
+        _, Bn = gen_box(rs)
+        return {"what": "box", "op": "set", "values": Bn.tolist()}, Bn
+    if r < 8:
+        i, j = [(1, 0), (2, 0), (2, 1)][rs.randint(3)]
+        delta = float(rs.uniform(-0.3, 0.3) * abs(B[j, j]) if B[j, j] else 0.1)
+        Bn = B.copy()
+        Bn[i, j] += delta
+        return {"what": "box", "op": "shear", "i": i, "j": j, "delta": delta}, Bn
+    if form == "tuple":
+        return None, B
+    pt = anchor + rs.uniform(-4, 4, size=3) @ B
+    if form == "int":
+        pt = np.round(pt)
+    return {"what": "point", "op": "set", "values": [float(x) for x in pt]}, B
 
 
 def gen_history(rs):
-    """2-4 consecutive distance_to calls sharing one point object, one box array and the Residue objects"""
+    """2-5 consecutive distance_to calls sharing one point object, one box array, one inverse-box array and the Residue
+    objects; between calls the caller may change the box (+ inverse buffer) or the point IN PLACE"""
     while True:
         kind, B = gen_box(rs)
         nres = int(rs.randint(1, 4))
@@ -408,26 +466,43 @@ def gen_history(rs):
             residues.append(blob(rs, cf @ B, int(rs.choice([1, 2, 3, 5]))).tolist())
         form = str(rs.choice(POINT_FORMS))
         f = rs.uniform(-4, 4, size=3)
-        pt = centre(residues[0]) + f @ B
+        anchor = centre(residues[0])
+        pt = anchor + f @ B
         if form == "int":
             pt = np.round(pt)
-        ncalls = int(rs.randint(2, 5))
+        ncalls = int(rs.randint(2, 6))
         calls = []
+        Bcur = B
+        sticky = str(rs.choice(["box", "inv"]))     # runs of calls with the same flag
+        updated = False
         for k in range(ncalls):
             me = int(rs.randint(nres))
             if k < 2 or nres == 1 or rs.randint(0, 3):
                 other = "point"
             else:
                 other = int(rs.choice([j for j in range(nres) if j != me]))
-            calls.append({"self": me, "other": other, "box": str(rs.choice(["box", "box", "inv", "none"]))})
+            call = {"self": me, "other": other,
+                    "box": sticky if rs.randint(0, 3) else str(rs.choice(["box", "inv", "none"]))}
+            if k > 0 and rs.randint(0, 2):
+                pre = []
+                for _ in range(int(rs.choice([1, 1, 2]))):
+                    u, Bcur = gen_update(rs, Bcur, form, anchor)
+                    if u is not None:
+                        pre.append(u)
+                if pre:
+                    call["pre"] = pre
+                    updated = True
+            calls.append(call)
         h = {"kind": "history", "boxkind": kind, "box": B.tolist(), "residues": residues,
-             "point": [float(x) for x in pt], "point_form": form, "calls": calls}
+             "point": [float(x) for x in pt], "point_form": form, "calls": calls, "updates": updated}
         if history_in_domain(h):
             return h
 
 
 def history_tag(h):
-    return "history/%s/%s/%dcalls" % ("ortho" if h["boxkind"].startswith("ortho") else "tric", h["point_form"], len(h["calls"]))
+    upd = any(c.get("pre") for c in h["calls"])
+    return "history/%s/%s/%s" % ("ortho" if h["boxkind"].startswith("ortho") else "tric", h["point_form"],
+                                 "updated_in_place" if upd else "arrays_constant")
 
 
 # seeded/C19-4 (dropped copy): np.asarray(point, dtype=float) is the caller's own float64 array and `vect -= centre`
@@ -443,6 +518,35 @@ CORPUS_HISTORIES = [
      "residues": [[[0.1, 0.2, 0.3], [0.5, 0.2, 0.1]]], "point": [7.0, 9.0, -14.0], "point_form": "int",
      "calls": [{"self": 0, "other": "point", "box": "inv"}, {"self": 0, "other": "point", "box": "box"},
                {"self": 0, "other": "point", "box": "none"}]},
+]
+
+
+# seeded/C19-5 (remembered inverse keyed on the caller's own box array): 3 nm box, the same array overwritten in place
+# with a 10 nm box, second call used the old inverse with the new box (3.4157 > non-periodic 2.0125); the same for the
+# inverse buffer with inv=True and for a triclinic box rescaled in place (box *= 1.37)
+_DEMO5_RES = [[[0.45, 0.68, 1.11], [0.35, 0.72, 1.09]], [[2.45, 0.88, 1.01], [2.35, 0.92, 0.99]]]
+CORPUS_HISTORIES += [
+    {"kind": "history", "boxkind": "ortho", "box": np.diag([3.0, 3.0, 3.0]).tolist(), "residues": _DEMO5_RES,
+     "point": [12.4, -19.1, 31.0], "point_form": "f64",
+     "calls": [{"self": 0, "other": 1, "box": "box"},
+               {"self": 0, "other": 1, "box": "box",
+                "pre": [{"what": "box", "op": "set", "values": np.diag([10.0, 10.0, 10.0]).tolist()}]},
+               {"self": 1, "other": 0, "box": "box"},
+               {"self": 0, "other": "point", "box": "box"},
+               {"self": 0, "other": 1, "box": "none"},
+               {"self": 0, "other": 1, "box": "inv",
+                "pre": [{"what": "box", "op": "set", "values": np.diag([3.0, 3.0, 3.0]).tolist()}]},
+               {"self": 0, "other": 1, "box": "inv",
+                "pre": [{"what": "box", "op": "set", "values": np.diag([2.5, 4.0, 6.0]).tolist()}]},
+               {"self": 0, "other": 1, "box": "box"}]},
+    {"kind": "history", "boxkind": "tric_gromacs", "box": [[3.0, 0.0, 0.0], [0.6, 3.2, 0.0], [-0.5, 0.7, 2.8]],
+     "residues": _DEMO5_RES, "point": [2.4, 0.9, 1.0], "point_form": "f64",
+     "calls": [{"self": 0, "other": 1, "box": "box"},
+               {"self": 0, "other": 1, "box": "box", "pre": [{"what": "box", "op": "scale", "factor": 1.37}]},
+               {"self": 0, "other": "point", "box": "box",
+                "pre": [{"what": "point", "op": "set", "values": [2.4 + 2 * 4.11 + 0.822 - (-0.685), 0.9 + 4.384 - 0.959, 1.0 - 3.836]}]},
+               {"self": 0, "other": "point", "box": "inv",
+                "pre": [{"what": "box", "op": "shear", "i": 1, "j": 0, "delta": 0.25}]}]},
 ]
 
 
